@@ -144,6 +144,10 @@ Definition spec_run_op1 (r : sstate) (o : op) : sstate * list obs :=
   | OLNext i n => let '(l, out) := live_next (ss_lives r) i n in (sset_lives r l, [out])
   | OLRel i => (sset_lives r (set_nth i None None (ss_lives r)), [])
   | OStat h p => (r, [BNone])           (* Stat is outside the property *)
+  | OBReplayTo b1 b2 =>
+      let '(_, l1) := sget_batch r b1 in
+      let '(h2, l2) := sget_batch r b2 in
+      (sset_batch r b2 (h2, l2 ++ l1), [])      (* whatever tables the two batches belong to *)
   | OInit d => (sset_store r (supd d sinit s), [])
   end.
 
